@@ -277,6 +277,12 @@ def seed_correspondence(ctx):
 # ================================================================================================ digest runs (oracle)
 def group_tag(base):
     tag = base["sampler"] + ("" if base.get("flows", "fake") == "fake" else "-realflows") + ":" + base["model"]
+    if "poolsize" in base:
+        tag += f".poolsize={base['poolsize']}"
+    if base.get("latent_prior"):
+        tag += "." + base["latent_prior"]
+    if base.get("name"):
+        tag += "." + base["name"]
     if base.get("edge"):
         tag += f".seed={base['seed']}"
     return tag
@@ -336,6 +342,12 @@ def base_cfgs(level, ctx):
     cfgs.append(dict(sampler="ins", model="vec", seed=seeds[-1], flows="real"))
     if level != "quick":
         cfgs.append(dict(sampler="ins", model="scalar", seed=seeds[0], flows="fake"))
+        # algorithmic defaults that must not be derived from a parallelisation setting (pool size left to the sampler: seeded
+        # change C14-fC) and the latent priors with their own sampling routines (n-ball: seeded change C14-fB)
+        cfgs.append(dict(sampler="ns", model="vec", seed=seeds[0], poolsize=None, max_iteration=150))
+        cfgs.append(dict(sampler="ns", model="vec", seed=seeds[-1], latent_prior="uniform_nball", max_iteration=150))
+        cfgs.append(dict(sampler="ns", model="vec", seed=seeds[0], max_iteration=150, name="augmented-marginalised",
+                         extra=dict(flow_proposal_class="AugmentedFlowProposal", marginalise_augment=True)))
     # edge seeds: every integer is a legal seed, 0 included (a falsy value!), up to the largest NumPy accepts
     for seed in EDGE_SEEDS:
         cfgs.append(dict(sampler="ns", model="vec", seed=seed, max_iteration=120, edge=True))
